@@ -1,1 +1,297 @@
+// Package verif is the harness library. Under the symbolic engine (hcsym) every function
+// here is intercepted; the bodies below are the *native* semantics used when a harness is
+// compiled by the Go toolchain and replayed on concrete inputs (counterexample replay and
+// the concolic cross-check of the translator).
 package verif
+
+import (
+	"encoding/json"
+	"fmt"
+	"os"
+	"sort"
+)
+
+// ---- native replay state ----
+
+type Input struct {
+	Vals map[string]uint64 `json:"vals"`
+}
+
+type Outcome struct {
+	Failed    []string           `json:"failed"`   // labels of failed asserts
+	Passed    []string           `json:"passed"`   // labels of passed asserts
+	Reached   []string           `json:"reached"`  // Reach labels
+	AssumeBad bool               `json:"assume_bad"`
+	Panic     string             `json:"panic,omitempty"`
+	Observed  map[string][]int64 `json:"observed,omitempty"`
+	Facts     map[string]string  `json:"facts,omitempty"`
+}
+
+var (
+	cur  *Input
+	out  *Outcome
+
+)
+
+type assumeFailed struct{}
+
+// RunNative runs f on the given inputs and returns what happened.
+func RunNative(in *Input, f func()) (o *Outcome) {
+	cur = in
+	out = &Outcome{Observed: map[string][]int64{}, Facts: map[string]string{}}
+	o = out
+	defer func() {
+		if r := recover(); r != nil {
+			if _, ok := r.(assumeFailed); ok {
+				o.AssumeBad = true
+				return
+			}
+			o.Panic = fmt.Sprint(r)
+		}
+	}()
+	f()
+	return o
+}
+
+// LoadInputs reads a JSON file with a list of inputs.
+func LoadInputs(path string) ([]*Input, error) {
+	b, err := os.ReadFile(path)
+	if err != nil {
+		return nil, err
+	}
+	var ins []*Input
+	if err := json.Unmarshal(b, &ins); err != nil {
+		return nil, err
+	}
+	return ins, nil
+}
+
+func val(name string) uint64 {
+	if cur == nil {
+		return 0
+	}
+	return cur.Vals[name]
+}
+
+// ---- inputs ----
+
+func IsSymbolic() bool { return false }
+
+func Bool(name string) bool { return val(name) != 0 }
+func U8(name string) uint8  { return uint8(val(name)) }
+func U16(name string) uint16 { return uint16(val(name)) }
+func U32(name string) uint32 { return uint32(val(name)) }
+func U64(name string) uint64 { return val(name) }
+func I64(name string) int64  { return int64(val(name)) }
+
+// Int is a symbolic int with lo <= v <= hi assumed (not case-split).
+func Int(name string, lo, hi int) int {
+	v := int(int64(val(name)))
+	if v < lo || v > hi {
+		panic(assumeFailed{})
+	}
+	return v
+}
+
+// F64 is an arbitrary float64 (any bit pattern).
+func F64(name string) float64 {
+	return f64frombits(val(name))
+}
+
+// Bytes returns n arbitrary bytes named name[0..n-1].
+func Bytes(name string, n int) []byte {
+	b := make([]byte, n)
+	for i := range b {
+		b[i] = byte(val(fmt.Sprintf("%s[%d]", name, i)))
+	}
+	return b
+}
+
+func String(name string, n int) string { return string(Bytes(name, n)) }
+
+// Choice returns a value in 0..n-1; the engine explores every alternative.
+func Choice(name string, n int) int {
+	v := int(val(name))
+	if v < 0 || v >= n {
+		panic(assumeFailed{})
+	}
+	return v
+}
+
+// Concrete forces x to a concrete value (the engine enumerates all feasible values).
+func Concrete(x int) int { return x }
+
+// ---- control ----
+
+func Assume(c bool) {
+	if !c {
+		panic(assumeFailed{})
+	}
+}
+
+func Assert(c bool, label string) {
+	if out == nil {
+		if !c {
+			panic("verif.Assert failed: " + label)
+		}
+		return
+	}
+	if c {
+		out.Passed = append(out.Passed, label)
+	} else {
+		out.Failed = append(out.Failed, label)
+	}
+}
+
+func Unreachable(label string) { Assert(false, label) }
+
+func Reach(label string) {
+	if out != nil {
+		out.Reached = append(out.Reached, label)
+	}
+}
+
+func Fact(key, val string) {
+	if out != nil {
+		out.Facts[key] = val
+	}
+}
+
+// Observe records a value for the concolic cross-check (engine value under the model
+// must equal the native value).
+func Observe(name string, data []byte) {
+	if out != nil {
+		v := make([]int64, len(data))
+		for i, b := range data {
+			v[i] = int64(b)
+		}
+		out.Observed[name] = v
+	}
+}
+
+func ObserveInt(name string, x int64) {
+	if out != nil {
+		out.Observed[name] = []int64{x}
+	}
+}
+
+func ObserveBool(name string, b bool) {
+	x := int64(0)
+	if b {
+		x = 1
+	}
+	ObserveInt(name, x)
+}
+
+// Eq is bytewise equality (one term under the engine, no forking).
+func Eq(a, b []byte) bool {
+	if len(a) != len(b) {
+		return false
+	}
+	r := true
+	for i := range a {
+		if a[i] != b[i] {
+			r = false
+		}
+	}
+	return r
+}
+
+// And/Or/Not/Implies build conditions without branching (no forking under the engine).
+func And(a, b bool) bool     { return a && b }
+func Or(a, b bool) bool      { return a || b }
+func Implies(a, b bool) bool { return !a || b }
+
+// IteU8 etc. are branch-free selections.
+func IteU8(c bool, a, b uint8) uint8 {
+	if c {
+		return a
+	}
+	return b
+}
+func IteInt(c bool, a, b int) int {
+	if c {
+		return a
+	}
+	return b
+}
+
+// Panics runs f and reports whether it panicked (Go panic of the code under test).
+func Panics(f func()) (p bool) {
+	defer func() {
+		if r := recover(); r != nil {
+			if _, ok := r.(assumeFailed); ok {
+				panic(r)
+			}
+			p = true
+		}
+	}()
+	f()
+	return false
+}
+
+// PanicValue runs f and returns the panic message ("" if none).
+func PanicValue(f func()) (msg string) {
+	defer func() {
+		if r := recover(); r != nil {
+			if _, ok := r.(assumeFailed); ok {
+				panic(r)
+			}
+			msg = fmt.Sprint(r)
+			if msg == "" {
+				msg = "panic"
+			}
+		}
+	}()
+	f()
+	return ""
+}
+
+// MakeCap tells the engine how to split symbolic make() lengths: exact classes 0..n and
+// one class "> n" (materialised with n+1 cells). No-op natively.
+func MakeCap(n int) {}
+
+// MapOrderNondet makes map iteration order a symbolic choice. No-op natively.
+func MapOrderNondet(on bool) {}
+
+// Forbid makes entering the named function an assertion failure (label). No-op natively:
+// native replays rely on the harness' own observable asserts.
+func Forbid(fn, label string) {}
+func Allow(fn string)         {}
+
+// Calls returns how many times the named (intercepted or counted) function was entered.
+// Natively unknown: returns -1.
+func Calls(fn string) int { return -1 }
+
+// UF is an uninterpreted function over byte strings with functional consistency and
+// injectivity (collision freedom). Only models call it; natively it must not be reached.
+func UF(name string, outLen int, args ...[]byte) []byte {
+	panic("verif.UF called natively: " + name)
+}
+
+// Fresh returns n fresh symbolic bytes that are not replay inputs (model internals).
+func Fresh(name string, n int) []byte {
+	panic("verif.Fresh called natively: " + name)
+}
+
+// Trace appends a note to the path trace (engine) / no-op (native).
+func Trace(msg string) {}
+
+func f64frombits(b uint64) float64 {
+	return mathFloat64frombits(b)
+}
+
+func SortedKeys(m map[string]bool) []string {
+	var ks []string
+	for k := range m {
+		ks = append(ks, k)
+	}
+	sort.Strings(ks)
+	return ks
+}
+
+// Thorough reports whether the check runs in the thorough tier (VERIF_TIER=thorough).
+func Thorough() bool { return os.Getenv("VERIF_TIER") == "thorough" }
+
+// Budget sets the per-path instruction budget (engine only).
+func Budget(steps int) {}
